@@ -144,9 +144,7 @@ type NatSock struct {
 func (s *NatSock) ev(e natEv) {
 	e.T = time.Now()
 	s.mu.Lock()
-	if len(s.Events) < 20000 {
-		s.Events = append(s.Events, e)
-	}
+	s.Events = append(s.Events, e)
 	s.mu.Unlock()
 }
 func (s *NatSock) SetReadDeadline(t time.Time) error {
@@ -168,8 +166,17 @@ func (s *NatSock) WriteTo(b []byte, dst net.Addr) (int, error) {
 			return 0, err
 		}
 	}
+	// The event is entered BEFORE the datagram leaves (and completed afterwards): the answer to it
+	// can be read by another goroutine before this one is scheduled again, and the log must keep
+	// cause before effect.
+	s.mu.Lock()
+	idx := len(s.Events)
+	s.Events = append(s.Events, natEv{T: time.Now(), Kind: "writeTo", Addr: dst.String(), N: -1})
+	s.mu.Unlock()
 	n, err := s.PacketConn.WriteTo(b, dst)
-	s.ev(natEv{Kind: "writeTo", Addr: dst.String(), N: n, Err: errStr(err)})
+	s.mu.Lock()
+	s.Events[idx].N, s.Events[idx].Err = n, errStr(err)
+	s.mu.Unlock()
 	return n, err
 }
 func (s *NatSock) ReadFrom(b []byte) (int, net.Addr, error) {
